@@ -770,6 +770,15 @@ Proof.
   cbn in H. rewrite Habs in H; discriminate.
 Qed.
 
+(* a truncating write of pack-names has a crash point that lists neither the old nor the new packs *)
+Theorem nonatomic_names_write_breaks s l :
+  names s <> [] -> l <> [] ->
+  exists k, let s' := run (firstn k (nonatomic_save_names l)) s in
+            names s' <> names s /\ names s' <> l.
+Proof.
+  intros Hs Hl. exists 2. cbn. split; intro E; [apply Hs | apply Hl]; symmetry; exact E.
+Qed.
+
 (* ---------- the statements in the form "old or new" ---------- *)
 Lemma txn_names_final Tn To pre l clear post s :
   quiet Tn pre -> quiet To post -> names (run (txn pre l clear post) s) = l.
